@@ -77,8 +77,9 @@ def check(tr):
                 bad = None
                 for k, v in a.items():
                     bv = b.get(k)
-                    if v is None or v == "NaN":
-                        ok = bv is None or bv == "NaN"
+                    if v is None or v == "NaN" or v == "":
+                        # (an empty string is an empty CSV field, which reads back as missing)
+                        ok = bv is None or bv == "NaN" or bv == ""
                     else:
                         ok = _eq(v, bv)
                     if not ok:
